@@ -1570,6 +1570,8 @@ class Interp:
                 return False
             self.unsupported(node, f"isinstance against external {cls.name}")
         if cls is int:
+            if isinstance(v, EnumVal):
+                return self._is_int_enum(v.cls)  # members of an IntEnum are ints
             return (isinstance(v, int) and True) or (isinstance(v, Rat) and symt.FACTS.is_integral(v))
         if cls is float:
             return isinstance(v, Fraction) or (isinstance(v, Rat) and not symt.FACTS.is_integral(v))
